@@ -206,12 +206,32 @@ def gen(rng, tier):
         pid = 481
         it1 = L.items_for(rng, p1, L.rand_cuts(rng, len(p1), set(c1["inner_ends"]), "random"), pid, tail_other=False)
         it2 = L.items_for(rng, p2, L.rand_cuts(rng, len(p2), set(c2["inner_ends"])), pid)
-        r = vlib.run_model([L.stream_line(pid, it1, "ser.pkts"), L.stream_line(pid, it2, "ser.pkts")])
+        r = vlib.run_model([L.stream_line(pid, it1, "ser.pkts"), L.stream_line(pid, it2, "ser.pkts"),
+                            "spec.hyp.read %s %d %d %s" % (L.carrier_args(c1), c1["stuffing"], pid, fmt_val(it1))])
         k1 = [vlib.unhx(x) for x in r[0].strip("[]").split()]
         k2 = [vlib.unhx(x) for x in r[1].strip("[]").split()]
-        cutat = rng.randrange(1, len(k1)) if len(k1) > 1 else 1
-        out.append(Case("pmt.read %s %d" % (hx(b"".join(k1[:cutat] + k2)), pid), kind="fid-restart", decides=False, nontrivial=False))
-        out.append(Case("pmt.read %s %d" % (hx(b"".join(k1 + k2)), pid), kind="fid-two-units", decides=False, nontrivial=False))
+        # an interrupted transmission of unit 1 (its first packets only, never reaching the end of the unit), then unit 2:
+        # C06_L4_read_pmt_after_interrupted (deciding when unit 2 satisfies L4's hypotheses and unit 1's packets stop early)
+        mine1 = [i for i, it in enumerate(it1) if it[0] == 1]
+        cutat = rng.randrange(1, len(mine1)) if len(mine1) > 1 else 0
+        npk = mine1[cutat] if cutat else 0          # packets of it1 before its cutat-th PMT packet
+        carried = sum(len(it[-1]) for it in it1[:npk] if it[0] == 1)
+        h2 = vlib.run_model(["spec.hyp.interrupted %s %s %s %d %d %s" % (
+            L.carrier_args(c1), fmt_val(it1[:npk]), L.carrier_args(c2), c2["stuffing"], pid, fmt_val(it2))])
+        ok_r = npk > 0 and carried < c1["unit_len"] and h2 == ["1"]      # hyp_interruptedb: every hypothesis of the theorem
+        line = "pmt.read %s %d" % (hx(b"".join(k1[:npk] + k2)), pid)
+        if ok_r:
+            want_spec(line, "spec.read", c2)
+        out.append(Case(line, kind="read-after-interrupted" if ok_r else "fid-restart", decides=ok_r, nontrivial=ok_r,
+                        theorem="C06_L4_read_pmt_after_interrupted"))
+        # the first unit followed by anything (another PMT, garbage, a truncated packet): C06_L4_read_pmt_then_anything
+        ok = r[2] == "1"
+        for tail, kind in ((b"".join(k2), "read-then-second-unit"), (L.rand_bytes(rng, rng.randrange(1, 400)), "read-then-garbage")):
+            line = "pmt.read %s %d" % (hx(b"".join(k1) + tail), pid)
+            if ok:
+                want_spec(line, "spec.read", c1)
+            out.append(Case(line, kind=kind if ok else "fid-two-units", decides=ok, nontrivial=ok,
+                            theorem="C06_L4_read_pmt_then_anything"))
         out.append(Case("pmt.read %s %d" % (hx(b"".join(k1[1:] + k2)), pid), kind="fid-join-midway", decides=False, nontrivial=False))
     if _SPEC_REQ:
         for (line, _), exp in zip(_SPEC_REQ, vlib.run_model([r for _, r in _SPEC_REQ])):
